@@ -55,6 +55,7 @@ Definition pair_mem (p : N * N) (l : list (N * N)) : bool :=
           3 a task owned by another environment changed or left the roster
           4 KILL for a task owned by another environment
           5 transition command for a task not owned by the requesting environment
+          6 an owned task lost its lock (parent kept, agent / executor id gone) without a failure of its executor / agent
           7 roster inconsistent (id twice / owner is not the environment the task was launched for)
           8 another environment's listing entry changed *)
 (* the environment that holds the lock on a task (parent role set and ids intact) *)
@@ -83,6 +84,17 @@ Definition mon04_step (ops : list op) (prev : obs) (o : op) (cur : obs) : list N
                                  | None => true
                                  end) (ob_roster prev)
             then 0 else 3 in
+  (* 6: a task that was locked keeps its parent but is not locked any more, although neither its
+        executor / agent failed nor it died: something else wrote a field the lock predicate reads *)
+  let c6 := if forallb (fun t => match lowner t with
+                                 | Some _ => died (t_id t) ||
+                                             match ob_find cur (t_id t) with
+                                             | Some t' => negb (option_eqb N.eqb (t_owner t') (t_owner t)) || t_idok t'
+                                             | None => true
+                                             end
+                                 | None => true
+                                 end) (ob_roster prev)
+            then 0 else 6 in
   (* 4 *)
   let c4 := if forallb (fun k => match ob_find prev k with
                                  | Some t => match lowner t with None => true | ow => mine ow end
@@ -111,7 +123,7 @@ Definition mon04_step (ops : list op) (prev : obs) (o : op) (cur : obs) : list N
              | [] => 0
              | _ => match o with OFinish _ _ => 1 | _ => 2 end
              end in
-  [c7; c3; c4; c5; c8; c12].
+  [c7; c6; c3; c4; c5; c8; c12].
 
 Fixpoint mon_walk (f : obs -> op -> obs -> list N) (prev : obs) (ops : list op) (l : list obs) : list N :=
   match ops, l with
@@ -120,8 +132,9 @@ Fixpoint mon_walk (f : obs -> op -> obs -> list N) (prev : obs) (ops : list op) 
   end.
 
 Definition mon04 (c : hcase) : N :=
-  if negb (Nat.eqb (length (h_ops c)) (length (h_obs c))) then 90   (* the history did not complete *)
-  else first_code [1] (mon_walk (mon04_step (h_ops c)) obs0 (h_ops c) (h_obs c)).
+  first_code [1]
+    (mon_walk (mon04_step (h_ops c)) obs0 (h_ops c) (h_obs c) ++
+     (if Nat.eqb (length (h_ops c)) (length (h_obs c)) then [] else [90])).   (* 90: the history did not complete *)
 
 (* ================= C06 ================= *)
 (* codes: 1 a DESTROY / after_DESTROY hook task is still owned by the environment that is gone
@@ -224,6 +237,7 @@ Definition tag_step (ops : list op) (prev : obs) (o : op) (cur : obs) : list N :
     | OCleanup | OKill _ => bit (existsb is_locked (ob_roster prev)) 6
     | ODies _ => 128
     | OFail _ => 512
+    | ORecon => 1024
     | _ => 0
     end ].
 
